@@ -74,12 +74,12 @@ def payload(rng):
     return ''.join(rng.choice(ALPHA) for _ in range(rng.randint(0, 7)))
 
 
-def doc(ctx, k, pay, eof=False):
+def doc(ctx, k, pay, eof=False, term='\n'):
     c0, c1 = CONTEXTS[ctx]
     hole = '\\' * k + '%' + pay
     if eof:
         return c0 + hole
-    return c0 + hole + '\n' + c1
+    return c0 + hole + term + c1
 
 
 def abstract(ast):
@@ -119,7 +119,7 @@ class C10(Prop):
     rule = ('cases: 22 contexts x k in 0..4 backslashes x pairs of payloads '
             'over a hostile alphabet (braces, brackets, dollars, backslashes, '
             '\\begin/\\end/\\item, %, commands), closed by a line break or (top '
-            'level) by end of input; every form of search (find_all, count, '
+            'level) by end of input, the line break being LF, a bare CR or CR LF; every form of search (find_all, count, '
             'find, attribute access; by name, by list of names, by full '
             'expression) must give the same answer for every payload and '
             'nothing for names that occur in the payload only. non-trivial = payload contains at least '
@@ -145,17 +145,20 @@ class C10(Prop):
             ctx = ctxs[j % len(ctxs)]
             yield k, {'ctx': ctx, 'k': (j // len(ctxs)) % 5, 'p1': payload(rng),
                       'p2': payload(rng),
-                      'eof': ctx.startswith('top') and rng.random() < .3}
+                      'eof': ctx.startswith('top') and rng.random() < .3,
+                      # the line may end in LF, in a bare CR or in CR LF
+                      'term': rng.choice(['\n', '\n', '\n', '\r', '\r\n'])}
 
     def nontrivial(self, p):
         return any(c in p['p1'] + p['p2'] for c in '{}[]$\\%')
 
     def sample(self, p):
-        return {'doc': short(doc(p['ctx'], p['k'], p['p1'], p['eof']), 200), 'k': p['k']}
+        return {'doc': short(doc(p['ctx'], p['k'], p['p1'], p['eof'], p.get('term', '\n')), 200), 'k': p['k']}
 
     def check(self, p, ctx):
         k = p['k']
         ctx.count('k=%d' % k)
+        ctx.seen('terminator', 'eof' if p['eof'] else p.get('term', '\n'))
         ctx.seen('context', p['ctx'])
         if k % 2 == 0:
             return self.check_comment(p, ctx)
@@ -164,7 +167,7 @@ class C10(Prop):
     def check_comment(self, p, ctx):
         shapes, profiles = [], []
         for pay in (p['p1'], p['p2'], 'Z'):
-            src = doc(p['ctx'], p['k'], pay, p['eof'])
+            src = doc(p['ctx'], p['k'], pay, p['eof'], p.get('term', '\n'))
             soup = common.parse(src)      # a comment can never cause an error
             if str(soup) != src:
                 return [fail('comment-roundtrip', '%s -> %s' % (short(repr(src), 120),
@@ -204,7 +207,7 @@ class C10(Prop):
 
     def check_escaped(self, p, ctx):
         for pay in (p['p1'], p['p2']):
-            src = doc(p['ctx'], p['k'], pay, p['eof'])
+            src = doc(p['ctx'], p['k'], pay, p['eof'], p.get('term', '\n'))
             c0 = CONTEXTS[p['ctx']][0]
             i = len(c0) + p['k']          # offset of the '%'
             ref = src[:i] + '&' + src[i + 1:]
@@ -236,6 +239,8 @@ class C10(Prop):
         g = []
         if len(m['sets'].get('context', ())) < len(CONTEXTS):
             g.append('not every context exercised')
+        if len(m['sets'].get('terminator', ())) < 4:
+            g.append('line terminators LF / CR / CR LF / end of input not all exercised')
         for k in range(5):
             if m['counters'].get('k=%d' % k, 0) < 500:
                 g.append('k=%d backslashes: fewer than 500 cases' % k)
